@@ -1,6 +1,9 @@
 package main
 
 import (
+	"verif/mc/refdoc"
+	"verif/mc/sphere"
+	"strconv"
 	"fmt"
 	"math"
 	"strings"
@@ -72,7 +75,7 @@ func indexedState(o geojson.Object) string { return "" }
 
 // c08One compares Parse(text, os) with Parse(text, base), where base differs
 // from os only in options that must not matter.
-func c08One(text string, base, os optSet, _ any, emit func(class string, c rt.Case, exp, got string)) {
+func c08One(text string, base, os optSet, extra any, emit func(class string, c rt.Case, exp, got string)) {
 	b, berr, bp := parseChecked(text, base.O)
 	if bp != "" || berr != nil || b == nil {
 		// not accepted under the base options: the options under test may not accept it either
@@ -117,11 +120,23 @@ func c08One(text string, base, os optSet, _ any, emit func(class string, c rt.Ca
 		return
 	}
 	repr := os.O != nil && (os.O.AllowSimplePoints || os.O.AllowRects) || base.O != nil && (base.O.AllowSimplePoints || base.O.AllowRects)
-	a1, a2 := answers(b), answers(o)
+	var xp []geojson.Object
+	if e, ok := extra.([]geojson.Object); ok {
+		xp = e
+	}
+	a1, a2 := answersWith(b, xp), answersWith(o, xp)
 	if repr {
 		// representation options: the statement fixes JSON and the predicate
 		// answers (a Rect deliberately counts 2 points), so the count is dropped
 		a1, a2 = dropCount(a1), dropCount(a2)
+	}
+	if a1 != a2 {
+		// a document with a number outside the float64 range (an infinite
+		// radius or ordinate) has no geometry any property defines: there only
+		// rectangle, emptiness, validity and count are compared
+		if jv, e := refdoc.ParseJSON(text); e == nil && jv.HasNonFinite() {
+			a1, a2 = a1[:strings.IndexByte(a1, '|')+1], a2[:strings.IndexByte(a2, '|')+1]
+		}
 	}
 	if a1 != a2 {
 		emit("answers-differ", mk(), a1, a2)
@@ -258,7 +273,7 @@ func runC08(r *rt.Run) {
 	r.Bounds["option_sets_full_product"] = len(full[0]) * 2
 	r.Bounds["option_sets_within_2_deviations"] = len(near[0]) * 2
 	r.Bounds["deviations"] = "seeds x full product; every document within 1 token deviation (thorough: 2 for seeds <= 40 tokens) x option sets within 2 deviations of the default"
-	r.Rule = "accepted documents x option sets, each compared with the default-option parse (same DisableCircleType): identical JSON, rect/empty/valid/count, 6 predicates x 14 probes; index options keep the Go kinds, representation options keep them up to SimplePoint=Point / Rect=Polygon (Circle stays Circle); RequireValid rejects iff an object of a standard type in the default parse is invalid, and returns only valid objects; non-trivial = text accepted under the default options"
+	r.Rule = "accepted documents x option sets, each compared with the default-option parse (same DisableCircleType): identical JSON, rect/empty/valid/count, 6 predicates x the probe objects (incl. three large circles at mid latitude, over a pole and across the antimeridian, with collections of points all around their rim); index options keep the Go kinds, representation options keep them up to SimplePoint=Point / Rect=Polygon (Circle stays Circle); RequireValid rejects iff an object of a standard type in the default parse is invalid, and returns only valid objects; non-trivial = text accepted under the default options"
 	r.Assume = []string{"the default-option parse is the reference (its own meaning is C07's and C06's business)"}
 	r.ParFor(len(seeds), func(i int, w *rt.Worker) {
 		// seed x full product
@@ -314,8 +329,60 @@ func runC08(r *rt.Run) {
 			}
 		}
 	})
+	// collections of points on and just inside the rim of the large probe
+	// circles, all around (the strip between the disc and the rectangle of
+	// its polygon approximation is where a child-index search by rectangle
+	// and a child-by-child loop can differ)
+	strip := circleStripDocs()
+	r.Bounds["circle_rim_documents"] = len(strip)
+	r.ParFor(len(strip), func(i int, w *rt.Worker) {
+		w.States++
+		w.Nontriv++
+		for d := 0; d < 2; d++ {
+			for _, os := range near[d] {
+				w.Evals++
+				c08One(strip[i], bases[d], os, circleProbes, func(class string, c rt.Case, exp, got string) {
+					c.X["probes"] = "circles"
+					w.Fail(class+"-rim", func() (rt.Case, string, string) { return c, trunc(exp), trunc(got) })
+				})
+			}
+		}
+	})
 	r.Sample(rt.Case{Kind: "doc", Op: "options", Doc: seeds[len(seeds)-1], Cfg: full[0][777].Name, X: map[string]string{"base": bases[0].Name}})
 	r.Sample(rt.Case{Kind: "doc", Op: "options", Doc: `{"type":"MultiPoint","coordinates":[[200,0]]}`, Cfg: near[0][20].Name, X: map[string]string{"base": bases[0].Name}})
+}
+
+func circleStripDocs() []string {
+	f := func(v float64) string { return strconv.FormatFloat(v, 'g', -1, 64) }
+	var out []string
+	for _, c := range c08Circles {
+		centre := "[" + f(c[0]) + "," + f(c[1]) + "]"
+		var rim []string
+		for b := 0.0; b < 360; b += 15 {
+			pl, po := sphere.Dest(c[1], c[0], c[2]*0.999, b)
+			if po > 180 {
+				po -= 360
+			}
+			p := "[" + f(po) + "," + f(pl) + "]"
+			rim = append(rim, p)
+			out = append(out, `{"type":"MultiPoint","coordinates":[`+centre+`,`+p+`]}`)
+			out = append(out, `{"type":"GeometryCollection","geometries":[{"type":"Point","coordinates":`+p+`},{"type":"Point","coordinates":`+centre+`}]}`)
+		}
+		out = append(out, `{"type":"MultiPoint","coordinates":[`+strings.Join(rim, ",")+`]}`)
+		// 70 features: the centre many times over, one rim point
+		for _, k := range []int{2, 8, 18} {
+			var fs []string
+			for i := 0; i < 70; i++ {
+				q := centre
+				if i == 40 {
+					q = rim[k]
+				}
+				fs = append(fs, `{"type":"Feature","geometry":{"type":"Point","coordinates":`+q+`},"properties":{}}`)
+			}
+			out = append(out, `{"type":"FeatureCollection","features":[`+strings.Join(fs, ",")+`]}`)
+		}
+	}
+	return out
 }
 
 func dropCount(a string) string {
